@@ -12,9 +12,9 @@ import xarray as xr
 from sv import core
 
 PROPERTY = "C19"
-GEN = []
-PROPS = ["ScoresVerif/Props/C19.lean", "ScoresVerif/Props/C19NextRegular.lean"]
-DRIVER_DEPS = ["ScoresVerif.Driver.C19"]
+GEN = ["DieboldMariano"]
+PROPS = ["ScoresVerif/Props/C19.lean", "ScoresVerif/Props/C19NextRegular.lean", "ScoresVerif/Props/C19Gen.lean"]
+DRIVER_DEPS = ["ScoresVerif.Driver.C19", "ScoresVerif.Driver.C19Gen"]
 AUDIT_FILES = ["ScoresVerif/Model/DieboldMariano.lean", "ScoresVerif/Spec/DieboldMariano.lean",
                "ScoresVerif/Lemmas/DieboldMariano.lean", "ScoresVerif/Lemmas/C19NextRegular.lean",
                "ScoresVerif/Driver/C19.lean"]
@@ -591,8 +591,50 @@ def acovf_differs(got, exact, e):
 
 
 # ------------------------------------------------------------------------------------------------ correspondence
+# ------------------------------------------------------------------------------------------------ tie T validated: regenerated HLN core
+def check_gen(ctx, n):
+    """the Lean code REGENERATED from _dm_gamma_hat_k / _dm_v_hat / _hln_method_stat (Gen/DieboldMariano.lean) is run on the same
+    dyadic series as the real module-level functions: a translator error shows up here, a source change in Props/C19Gen.lean."""
+    import importlib
+    mod = importlib.import_module("scores.stats.statistical_tests.diebold_mariano_impl")
+    rng = ctx.rng
+    cases = []
+    for _ in range(n):
+        ln = rng.randint(2, 12)
+        v = [rng.randint(-24, 24) / 4 for _ in range(ln)]
+        if rng.random() < 0.2:
+            v = [v[0]] * ln if rng.random() < 0.5 else [0.0] * ln          # constant / all-zero series: V_hat <= 0 -> NaN
+        h = rng.randint(1, ln - 1)
+        cases.append((v, h))
+    try:
+        res = core.run_driver("C19Gen", [{"op": "c19.gen_hln", "args": {"series": [core.fl_str(x) for x in v], "h": h}} for v, h in cases])
+    except Exception as ex:   # the regenerated module does not build / run: an obligation, not a violation by itself
+        ctx.fail("gen-vs-impl", "correspondence", "_dm_v_hat", "gen-driver", {"error": str(ex)[-400:]}, observed="driver failed",
+                 expected="regenerated code runs", tags={"site": "_dm_v_hat"}, theorem="gen_v_hat_eq_model")
+        return
+    for (v, h), m in zip(cases, res):
+        d = np.array(v, dtype=float)
+        dbar = float(np.mean(d))
+        desc = {"series": v, "h": h}
+        ctx.case("gen-vs-impl", desc)
+        with np.errstate(all="ignore"):
+            gam = [float(mod._dm_gamma_hat_k(d, dbar, len(d), k)) for k in range(h)]
+            vh = float(mod._dm_v_hat(d, dbar, len(d), h))
+        ok = len(gam) == len(m["gamma"]) and all(core.close(a, b, rtol=1e-9, atol=1e-9) for a, b in zip(gam, m["gamma"]))
+        mv = core.parse_fl(m["v_hat"])
+        if core.is_nan(mv):
+            # V_hat <= 0 exactly; the float value can be +-1e-17 (rounding): accept NaN or a value within rounding of 0
+            okv = math.isnan(vh) or abs(vh) < 1e-12
+        else:
+            okv = core.close(vh, mv, rtol=1e-9, atol=1e-12) or (abs(float(mv)) < 1e-12 and math.isnan(vh))
+        if not (ok and okv):
+            ctx.fail("gen-vs-impl", "correspondence", "_dm_v_hat", "gen-value", desc, observed={"gamma": gam, "v_hat": vh},
+                     expected={"gamma": m["gamma"], "v_hat": m["v_hat"]}, tags={"site": "_dm_v_hat"}, theorem="gen_v_hat_eq_model")
+
+
 def correspondence(ctx):
     rng = ctx.rng
+    check_gen(ctx, ctx.n(150, 1500))
     cases = [F6_WITNESS] + [gen_case(rng, "HLN", nmax=rng.choice([14, 25, 40])) for _ in range(ctx.n(400, 6000))]
     # the model is a function of the VALUES: integer-typed storage (exact) goes through the same comparison
     cases += [gen_dtype_case(rng, "HLN", rng.choice(INT_DTYPES)) for _ in range(ctx.n(80, 1200))]
